@@ -1,0 +1,7 @@
+//go:build !verif
+
+package wire
+
+// verifPoint marks a scheduling point of the shutdown protocol. It does
+// nothing outside verification builds.
+func verifPoint(srv *Server, name string) {}
